@@ -29,7 +29,10 @@ RULE = ('cases = (object kind in {sed, cube, conv}, spectral axis ascending/desc
         'The directed block enumerates the full product of the discrete dimensions, plus every ordered pair of '
         'DIFFERENT units for flux / error (val / unc) per object kind (SEDs also x read order x direction). Histories: 2..4 successive '
         'write(overwrite=True) -> read round trips on ONE path per object kind, fresh contents of the same shape '
-        '(sometimes another shape) each time, every read compared with what was written last.')
+        '(sometimes another shape) each time, every read compared with what was written last. Sibling histories: a '
+        'path and its compressed twin <path>.gz in one directory (stale twin beside the file addressed, either way '
+        'round; .gz written and addressed explicitly; only the .gz present and addressed without .gz for SED.read, '
+        'the one reader with a fallback).')
 UNITS = ['mJy', 'Jy', 'erg/cm2/s', 'erg/s']
 ASSUMPTIONS = [
     'FITS byte layout, unit-string formatting/parsing are astropy\'s (trusted); float64 payload is stored bit-exactly',
@@ -144,7 +147,9 @@ REQUIRED_BRANCHES = sorted({combo_name(c) for c in all_combos()}) + \
      'multi_aperture', 'single_model', 'multi_model',
      'history_sed', 'history_cube', 'history_conv', 'history_same_shape', 'history_other_shape',
      'sed_no_err_refused', 'sed_aperture_placeholder', 'cube_valid_flags', 'conv_scalar_columns',
-     'flux_error_units_differ']
+     'flux_error_units_differ'] + \
+    ['sibling_%s_%s' % (m, k) for m in ['stale_gz_beside', 'stale_plain_beside_gz', 'gz_explicit']
+     for k in ('sed', 'cube', 'conv')] + ['sibling_only_gz_addressed_plain_sed']
 
 
 def fill(rng, combo, small=False, sizes=None):
@@ -200,6 +205,45 @@ def gen_history(rng, combo, n_steps, shape_change, small=True):
     return dict(kind='history', obj=combo['kind'], steps=steps, shape_change=bool(shape_change))
 
 
+SIBLING_MODES = ['stale_gz_beside', 'stale_plain_beside_gz', 'gz_explicit', 'only_gz_addressed_plain']
+
+
+def gen_sibling(rng, combo, mode, same_shape=True):
+    """histories over a path and its compressed twin `<path>.gz` in one directory:
+    stale_gz_beside         write OLD to <path>.gz (and read it back), then NEW to <path>; reading <path> gives NEW
+    stale_plain_beside_gz   write OLD to <path>, then NEW to <path>.gz; reading <path>.gz gives NEW
+    gz_explicit             write to <path>.gz, read <path>.gz
+    only_gz_addressed_plain write to <path>.gz only, read <path> (SED.read falls back to the .gz twin; SEDs only)"""
+    first = fill(rng, combo, small=True)
+    sizes = (len(first['names']), len(first['wav']), len(first['val'][0])) if same_shape else None
+    second = fill(rng, combo, small=True, sizes=sizes)
+    if mode == 'stale_gz_beside':
+        steps = [dict(first, wsuf='.gz', rsuf='.gz'), dict(second, wsuf='', rsuf='')]
+    elif mode == 'stale_plain_beside_gz':
+        steps = [dict(first, wsuf='', rsuf=''), dict(second, wsuf='.gz', rsuf='.gz')]
+    elif mode == 'gz_explicit':
+        steps = [dict(first, wsuf='.gz', rsuf='.gz')]
+    else:
+        assert combo['kind'] == 'sed'
+        steps = [dict(first, wsuf='.gz', rsuf='')]
+    return dict(kind='history', obj=combo['kind'], steps=steps, shape_change=not same_shape, sibling=mode)
+
+
+def sibling_plan():
+    """(combo, mode) of the directed sibling histories: every mode for every object kind that supports it, SEDs in both
+    read orders and two units"""
+    out = []
+    base = dict(direction='asc', has_ap=True, has_unc=True, memmap=False)
+    for mode in SIBLING_MODES:
+        for o, un in (('nu', 'mJy'), ('wav', 'erg/cm2/s')):
+            out.append((dict(base, kind='sed', order=o, unit=un), mode))
+        if mode != 'only_gz_addressed_plain':
+            for mm in (False, True):
+                out.append((dict(base, kind='cube', order='nu', unit='mJy', memmap=mm), mode))
+            out.append((dict(base, kind='conv', order='nu', unit='mJy', has_wav=True), mode))
+    return out
+
+
 def history_combos():
     """one history per (kind, read order, unit) for SEDs, (order, memmap, unc) x two units for cubes, (apertures) for
     convolved fluxes"""
@@ -227,6 +271,10 @@ def gen_cases(seed, tier):
         if n % 3 == 0:
             rng = case_rng(seed, PID, i); i += 1
             yield gen_history(rng, combo, 4, True)
+    # a path and its compressed twin in one directory (stale siblings, .gz fallback of SED.read)
+    for n, (combo, mode) in enumerate(sibling_plan()):
+        rng = case_rng(seed, PID, i); i += 1
+        yield gen_sibling(rng, combo, mode, same_shape=(n % 2 == 0))
     # SEDs without errors: SED.write refuses
     for direction in ('asc', 'desc'):
         for ap in (True, False):
@@ -238,7 +286,12 @@ def gen_cases(seed, tier):
     combos = all_combos()
     for _ in range(N_RANDOM[tier]):
         rng = case_rng(seed, PID, i)
-        if rng.random() < 0.12:
+        x = rng.random()
+        if x < 0.04:
+            combo = rng.choice(combos)
+            modes = SIBLING_MODES if combo['kind'] == 'sed' else SIBLING_MODES[:3]
+            yield gen_sibling(rng, combo, rng.choice(modes), same_shape=rng.random() < 0.6)
+        elif x < 0.16:
             yield gen_history(rng, rng.choice(combos), rng.randint(2, 4), rng.random() < 0.3, small=rng.random() < 0.5)
         else:
             yield fill(rng, rng.choice(combos), small=False)
@@ -281,6 +334,13 @@ def _first_bad(a, b, exact):
         return ''
     i = tuple(int(x) for x in bad[0])
     return 'cell %r: read %r, stored %r (%d cells differ)' % (i, float(a[i]), float(b[i]), len(bad))
+
+
+def _paths(c, d, base):
+    """(path written, path handed to the reader): steps of a sibling history write / address the compressed twin
+    `<base>.gz` (`wsuf` / `rsuf`); plain cases use `<base>` for both"""
+    wsuf = c.get('wsuf', '')
+    return os.path.join(d, base + wsuf), os.path.join(d, base + c.get('rsuf', wsuf))
 
 
 def _qval(q, unit):
@@ -336,12 +396,12 @@ def check_sed(c, d, branches, with_model=True):
         # read back with unit_flux = the stored FLUX unit: the errors must come back as the stored errors expressed
         # in that unit
         err = _convert(err_stored, eun, c['unit'], nu_in, c['distance_kpc'])
-        fn = os.path.join(d, 'sed_%d.fits' % im)
+        fn, fn_read = _paths(c, d, 'sed_%d.fits' % im)
         try:
             with common.quiet():
                 s.write(fn, overwrite=True)
-                r = SED.read(fn, order=c['order'], unit_flux=unit)
-                r2 = SED.read(fn, order=other, unit_flux=unit)
+                r = SED.read(fn_read, order=c['order'], unit_flux=unit)
+                r2 = SED.read(fn_read, order=other, unit_flux=unit)
         except Exception as e:
             prop.append('model %s: write/read raised %s: %s' % (name, type(e).__name__, e))
             continue
@@ -443,12 +503,12 @@ def check_cube(c, d, branches, with_model=True):
     if c.get('valid') is not None:
         cube.valid = np.array(c['valid'], dtype=int)
         branches.add('cube_valid_flags')
-    fn = os.path.join(d, 'cube.fits')
+    fn, fn_read = _paths(c, d, 'cube.fits')
     try:
         with common.quiet():
             cube.write(fn, overwrite=True)
-            r = SEDCube.read(fn, order=c['order'], memmap=c['memmap'])
-            r2 = SEDCube.read(fn, order=other, memmap=c['memmap'])
+            r = SEDCube.read(fn_read, order=c['order'], memmap=c['memmap'])
+            r2 = SEDCube.read(fn_read, order=other, memmap=c['memmap'])
     except Exception as e:
         return ['cube write/read raised %s: %s' % (type(e).__name__, e)], []
     rw = np.asarray(r.wav.to(u.micron).value, float)
@@ -605,11 +665,11 @@ def check_conv(c, d, branches, with_model=True):
             branches.add('flux_error_units_differ')
         cf.flux = val[:, :, k] * unit
         cf.error = unc[:, :, k] * eunit
-        fn = os.path.join(d, 'conv_%d.fits' % k)
+        fn, fn_read = _paths(c, d, 'conv_%d.fits' % k)
         try:
             with common.quiet():
                 cf.write(fn, overwrite=True)
-                r = ConvolvedFluxes.read(fn)
+                r = ConvolvedFluxes.read(fn_read)
         except Exception as e:
             prop.append('conv write/read raised %s: %s' % (type(e).__name__, e))
             continue
@@ -762,8 +822,14 @@ def check_history(c, d, branches, with_model=True):
     for k, step in enumerate(c['steps']):
         p, m = CHECKS[step['kind']](step, d, branches, with_model=with_model)
         tag = 'write #%d of %d to the same path (%s)' % (k + 1, len(c['steps']), combo_name(step))
+        if c.get('sibling'):
+            tag = '%s, step %d: written to <path>%s, read as <path>%s (%s)' % (
+                c['sibling'], k + 1, step.get('wsuf', ''), step.get('rsuf', step.get('wsuf', '')), combo_name(step))
         prop += ['%s: %s' % (tag, x) for x in p]
         mod += ['%s: %s' % (tag, x) for x in m]
+    if c.get('sibling'):
+        branches.add('sibling_%s_%s' % (c['sibling'], c['obj']))
+        return prop, mod
     branches.add('history_' + c['obj'])
     branches.add('history_other_shape' if c.get('shape_change') else 'history_same_shape')
     return prop, mod
@@ -785,6 +851,8 @@ def evaluate(case, with_model=True):
 
 def label(case):
     if case['kind'] == 'history':
+        if case.get('sibling'):
+            return 'sibling|%s|%s' % (case['sibling'], case['obj'])
         return 'history|%s|%d steps' % (case['obj'], len(case['steps']))
     return combo_name(case)
 
@@ -822,6 +890,8 @@ def search(seed, tier, disagreeing):
         cases.append(fill(case_rng(seed, PID + 'search', i), combo, small=True)); i += 1
     for combo in history_combos():
         cases.append(gen_history(case_rng(seed, PID + 'search', i), combo, 3, False)); i += 1
+    for combo, mode in sibling_plan():
+        cases.append(gen_sibling(case_rng(seed, PID + 'search', i), combo, mode)); i += 1
     for c in cases:
         tried += 1
         prop, _, _ = evaluate(c, with_model=False)
